@@ -823,6 +823,10 @@ func (c *Ctx) execTypeAssert(fr *Frame, x *ssa.TypeAssert, st *State, reach stri
 		c.useUnbox(s)
 		val = Val{T: c.define(x.Name()+"_v", s, ite(ok, fmt.Sprintf("(%s %s)", unboxName(s), v), c.sorts.Zero(at))), Typ: at}
 	}
+	// the object behind the interface comes from outside this activation: its type invariant holds
+	if isRefLike(at) {
+		c.assumeInv(and(reach, ok), val.T, at, st)
+	}
 	if x.CommaOk {
 		fr.vals[x] = Val{Tup: []Val{val, {T: ok, Typ: types.Typ[types.Bool]}}, Typ: x.Type()}
 		return
@@ -912,6 +916,8 @@ func (c *Ctx) execMapUpdate(fr *Frame, x *ssa.MapUpdate, st *State, reach string
 	mt := x.Map.Type().Underlying().(*types.Map)
 	if !c.ecExempt(c.sorts.MapValT(mt)) {
 		c.frameCheckRef(fr, m, "map", st, reach, x.Pos())
+	} else if c.mods.IsStoreArray(c.sorts.MapValT(mt)) && c.wants("FRAME") && c.storeStrict() {
+		c.oblige("FRAME", "FRAME.scope", x.Pos(), reach, c.storeAllowed(m), "assignment to a variable: only this function's own scope (its env parameter) or a scope created here may be written")
 	}
 	c.lockCheck(fr, x.Map, st, reach, x.Pos(), true)
 	c.wfStore(reach, x.Pos(), v, mt.Elem(), st, "map entry")
